@@ -25,22 +25,31 @@ Definition apply_reads (x : var) (us : list var) (v : mvar) : mvar :=
 Lemma upd_same {A} (m : var -> A) k v : upd m k v k = v.
 Proof. unfold upd. rewrite str_eqb_refl. reflexivity. Qed.
 
-Lemma handle_expr_fold_var x : forall us s,
-  mv (fold_left (fun s w =>
-        let info := s_vars s w in
-        let info' := mkInfo (var_read (vi_var info)) (vi_paths info ++ [s_path s]) ARead in
-        mkScope (upd (s_vars s) w info') (s_path s)) us s) x
-  = apply_reads x us (mv s x).
+Lemma fold_read_one_var x : forall us s,
+  mv (fold_left read_one us s) x = apply_reads x us (mv s x).
 Proof.
   induction us as [|w us IH]; intro s; simpl; [reflexivity|].
-  rewrite IH. f_equal. unfold mv. simpl. unfold upd.
+  rewrite IH. f_equal. unfold mv, read_one. simpl. unfold upd.
   destruct (str_eqb w x) eqn:E; [|reflexivity].
   apply str_eqb_spec in E. subst w. reflexivity.
 Qed.
 
-Lemma handle_expr_var s a x :
-  mv (handle_expr s a) x = apply_reads x (uses (a_val a)) (mv s x).
-Proof. unfold handle_expr. apply handle_expr_fold_var. Qed.
+Lemma apply_reads_app x us1 us2 v :
+  apply_reads x (us1 ++ us2) v = apply_reads x us2 (apply_reads x us1 v).
+Proof. unfold apply_reads. apply fold_left_app. Qed.
+
+(* handleExpr only reads: directly used variables, and possibly more *)
+Lemma handle_expr_var s a s' x :
+  handle_expr s a = Ok s' ->
+  exists us, mv s' x = apply_reads x (uses (a_val a) ++ us) (mv s x).
+Proof.
+  unfold handle_expr. intro H.
+  destruct (a_op a);
+    try (inversion H; subst; exists []; rewrite app_nil_r; apply fold_read_one_var);
+    destruct (closure _ _ _) as [c| |]; try discriminate;
+    inversion H; subst; exists c;
+    rewrite fold_read_one_var, fold_read_one_var, apply_reads_app; reflexivity.
+Qed.
 
 (* every successful path of handleVarassign ends in the deferred function *)
 Lemma handle_varassign_scope s idx a d s' vs :
@@ -48,7 +57,7 @@ Lemma handle_varassign_scope s idx a d s' vs :
   s' = mkScope (upd (s_vars s) (a_var a)
                  (mkInfo (var_write (vi_var (s_vars s (a_var a))) idx a d)
                          (vi_paths (s_vars s (a_var a)) ++ [s_path s]) AWrite))
-               (s_path s).
+               (s_path s) (set_add (s_names s) (a_var a)).
 Proof.
   unfold handle_varassign.
   repeat match goal with
@@ -80,20 +89,23 @@ Definition line_effect (x : var) (idx : nat) (l : line) (v : mvar) (vx : mvar) :
                 (if str_eqb (a_var a) x then var_write vx idx a false else v)
   end.
 
-(* v = Var of x before the line, vx = Var of the assigned variable before the line *)
+(* the Var of x after a line: written if the line assigns x, then read some number of times *)
 Lemma check_line_var s idx l s' vs x :
   check_line s idx l = Ok (s', vs) ->
-  mv s' x = match l_body l with
-            | None => mv s x
-            | Some a => apply_reads x (uses (a_val a))
-                          (if str_eqb (a_var a) x then var_write (mv s x) idx a false else mv s x)
-            end.
+  match l_body l with
+  | None => mv s' x = mv s x
+  | Some a => exists us,
+      mv s' x = apply_reads x (uses (a_val a) ++ us)
+                  (if str_eqb (a_var a) x then var_write (mv s x) idx a false else mv s x)
+  end.
 Proof.
-  unfold check_line. destruct (update_include_path s l) as [s1|] eqn:E1; [|discriminate].
+  unfold check_line. destruct (update_include_path s l) as [s1| |] eqn:E1; try discriminate.
   apply update_include_path_vars in E1.
   destruct (l_body l) as [a|].
-  - destruct (handle_varassign s1 idx a false) as [[s2 vs2]|] eqn:E2; [|discriminate].
-    intro H; inversion H; subst. rewrite handle_expr_var.
+  - destruct (handle_varassign s1 idx a false) as [[s2 vs2]| |] eqn:E2; try discriminate.
+    destruct (handle_expr s2 a) as [s3| |] eqn:E3; try discriminate.
+    intro H; inversion H; subst.
+    destruct (handle_expr_var _ _ _ x E3) as [us Hus]. exists us. rewrite Hus.
     rewrite (handle_varassign_var _ _ _ _ _ x E2). unfold mv. rewrite E1.
     destruct (str_eqb (a_var a) x) eqn:E; [|reflexivity].
     apply str_eqb_spec in E. subst x. reflexivity.
@@ -118,18 +130,6 @@ Proof.
 Qed.
 
 (* ---------- 2. the invariant ---------- *)
-
-Definition entry (x : var) (idx : nat) (l : line) : list (nat * assign) :=
-  match l_body l with
-  | Some a => if str_eqb (a_var a) x then [(idx, a)] else []
-  | None => []
-  end.
-
-Fixpoint writes_of (x : var) (idx : nat) (ls : list line) : list (nat * assign) :=
-  match ls with
-  | [] => []
-  | l :: r => entry x idx l ++ writes_of x (S idx) r
-  end.
 
 Lemma writes_of_app x : forall a idx b,
   writes_of x idx (a ++ b) = writes_of x idx a ++ writes_of x (idx + length a) b.
@@ -158,8 +158,13 @@ Definition inv_var (st : store) (ws : list (nat * assign)) (noshell : bool) (x :
   (noshell = true -> ws <> [] ->
      exists t, st x = Some (Txt t) /\ (v_value v = t \/ v_value v = 32 :: t)).
 
+(* the remembered text is the stored text: no '!=' and no ':=' with a '$' since
+   the last assignment that replaced the whole value *)
+Definition known (ws : list (nat * assign)) : bool :=
+  negb (after_shell ws) && negb (after_eval_ref ws).
+
 Definition inv_x (fuel : nat) (pre : program) (s : scope) (x : var) : Prop :=
-  inv_var (store_after fuel pre) (writes_of x 0 pre) (no_shell_on x pre) x (mv s x).
+  inv_var (store_after fuel pre) (writes_of x 0 pre) (known (writes_of x 0 pre)) x (mv s x).
 
 Lemma inv_x_init fuel x : inv_x fuel [] new_scope x.
 Proof.
@@ -186,9 +191,6 @@ Proof.
   - apply H5; assumption.
   - apply H5; assumption.
 Qed.
-
-Lemma no_shell_on_app x a b : no_shell_on x (a ++ b) = no_shell_on x a && no_shell_on x b.
-Proof. unfold no_shell_on. apply forallb_app. Qed.
 
 Lemma eager_plain_app a b : eager_plain (a ++ b) = eager_plain a && eager_plain b.
 Proof. unfold eager_plain. apply forallb_app. Qed.
@@ -250,7 +252,8 @@ Lemma var_write_value v idx a :
 Proof.
   intro Hc.
   assert (E : v_value (var_write v idx a false) =
-              var_update (mkVar (v_state v) (v_cval v) (v_value v) (v_writes v ++ [(idx, a)]) (v_cond v || false)) a).
+              var_update (mkVar (v_state v) (v_cval v) (v_value v) (v_writes v ++ [(idx, a)]) (v_cond v || false)
+                                (set_add_all (v_refs v) (uses (a_val a)))) a).
   { unfold var_write, var_update_constant. simpl.
     destruct (cstate_eqb (v_state v) C3); [reflexivity|].
     destruct (v_cond v || false); [reflexivity|].
@@ -292,96 +295,165 @@ Proof.
 Qed.
 
 (* Var.Write on x against the reference store, for a plain assignment to x *)
-Lemma inv_var_write fuel st ws ns x v idx a :
-  inv_var st ws ns x v ->
-  a_var a = x ->
-  splain (Some (spec_assign a)) = true ->
-  inv_var (exec_assign fuel st (spec_assign a)) (ws ++ [(idx, a)])
-          (ns && negb (op_eqb (a_op a) OpShell)) x (var_write v idx a false).
+Lemma after_shell_snoc ws w :
+  after_shell (ws ++ [w]) = match a_op (snd w) with
+                            | OpShell => true
+                            | OpAssign | OpEval => false
+                            | _ => after_shell ws
+                            end.
+Proof. unfold after_shell. rewrite fold_left_app. reflexivity. Qed.
+
+Lemma after_eval_ref_snoc ws w :
+  after_eval_ref (ws ++ [w]) = match a_op (snd w) with
+                               | OpEval => negb (no_dollar (render (a_val (snd w))))
+                               | OpAssign => false
+                               | _ => after_eval_ref ws
+                               end.
+Proof. unfold after_eval_ref. rewrite fold_left_app. reflexivity. Qed.
+
+(* a value without make variables, built from '$'-free literals, has no '$' *)
+Lemma render_length vl :
+  (length (render vl) >= length (without_vars vl))%nat /\
+  (existsb (fun c => match c with Ref _ => true | Lit _ => false end) vl = true ->
+   (length (render vl) > length (without_vars vl))%nat).
 Proof.
-  intros (H1 & H2 & H3 & H4 & H5 & H6 & H7) Hx Hp.
-  assert (Hst : exec_assign fuel st (spec_assign a) x = plain_step (st x) (spec_assign a)).
-  { rewrite (exec_assign_plain fuel st _ Hp). simpl. rewrite Hx, str_eqb_refl. reflexivity. }
+  induction vl as [|c vl [IH1 IH2]]; simpl; [split; [lia|discriminate]|].
+  unfold render, without_vars in *. simpl. rewrite !app_length. destruct c as [t|w]; simpl.
+  - split; [lia|]. intro H. specialize (IH2 H). lia.
+  - rewrite app_length. simpl. split; [lia|]. intros _. lia.
+Qed.
+
+Lemma no_vars_plain vl :
+  forallb chunk_ok vl = true -> has_make_vars vl = false -> no_dollar (render vl) = true.
+Proof.
+  intros Hok Hm. unfold has_make_vars in Hm. apply negb_false_iff in Hm. apply str_eqb_spec in Hm.
+  assert (Hn : existsb (fun c => match c with Ref _ => true | Lit _ => false end) vl = false).
+  { destruct (existsb _ vl) eqn:E; [|reflexivity].
+    destruct (render_length vl) as [_ H]. specialize (H E). rewrite Hm in H. lia. }
+  clear Hm. induction vl as [|c vl IH]; [reflexivity|].
+  simpl in Hok, Hn. apply andb_true_iff in Hok as [Hc Hok]. apply orb_false_iff in Hn as [Hr Hn].
+  destruct c as [t|w]; [|discriminate].
+  unfold render. simpl. unfold no_dollar. rewrite forallb_app. fold (no_dollar t).
+  simpl in Hc. rewrite Hc. simpl. apply IH; assumption.
+Qed.
+
+(* Var.Write on x against the reference store *)
+Lemma inv_var_write fuel st ws x v idx a :
+  inv_var st ws (known ws) x v ->
+  a_var a = x ->
+  forallb chunk_ok (a_val a) = true ->
+  inv_var (exec_assign fuel st (spec_assign a)) (ws ++ [(idx, a)])
+          (known (ws ++ [(idx, a)])) x (var_write v idx a false).
+Proof.
+  intros (H1 & H2 & H3 & H4 & H5 & H6 & H7) Hx Hok.
   assert (Hne : ws ++ [(idx, a)] <> []) by (destruct ws; discriminate).
   unfold inv_var. rewrite var_write_writes, var_write_cond, H1, H2.
   split; [reflexivity|]. split; [reflexivity|].
   split; [intro E; exfalso; exact (var_write_state _ _ _ E)|].
-  split; [|split; [intro E; contradiction|split]].
-  - (* constant => the store holds constantValue *)
-    intro Hk. split; [exact Hne|].
-    destruct (var_write_constant v idx a H2 Hk) as [Hs Hcv].
-    rewrite Hst. unfold plain_step, spec_assign. simpl.
-    destruct (a_op a) eqn:Eo; simpl.
-    + rewrite Hcv. reflexivity.
-    + contradiction.
-    + destruct Hcv as [_ Hcv]. rewrite Hcv. reflexivity.
-    + destruct Hs as [Hs|Hs]; rewrite Hs in Hcv.
-      * destruct (H3 Hs) as [Hc0 Hw0]. destruct (H5 Hw0) as [Hn _].
-        rewrite Hn, Hcv, Hc0. reflexivity.
-      * assert (Hk0 : is_constant v = true) by (unfold is_constant; rewrite Hs; reflexivity).
-        destruct (H4 Hk0) as [_ Hv]. rewrite Hv, Hcv, <- app_assoc. reflexivity.
-    + destruct Hs as [Hs|Hs]; rewrite Hs in Hcv.
-      * destruct (H3 Hs) as [Hc0 Hw0]. destruct (H5 Hw0) as [Hn _].
-        rewrite Hn, Hcv. reflexivity.
-      * assert (Hk0 : is_constant v = true) by (unfold is_constant; rewrite Hs; reflexivity).
-        destruct (H4 Hk0) as [_ Hv]. rewrite Hv, Hcv. reflexivity.
-  - (* defined afterwards *)
-    intros _. rewrite Hst. unfold plain_step. simpl.
-    destruct (a_op a); simpl; try discriminate; destruct (st x) as [[o|]|]; discriminate.
-  - (* the remembered text *)
-    intros Hns _. apply andb_true_iff in Hns as [Hns Hsh]. apply negb_true_iff in Hsh.
-    rewrite Hst, (var_write_value v idx a H2), H1. unfold plain_step, spec_assign. simpl.
-    destruct ws as [|w0 ws0].
-    + destruct (H5 eq_refl) as [Hn Hv0]. rewrite Hn, Hv0.
-      destruct (a_op a); simpl in *; try discriminate; eexists; split; try reflexivity; auto.
-    + assert (Hw : w0 :: ws0 <> []) by discriminate.
-      destruct (H7 Hns Hw) as (t & Ht & Hv). rewrite Ht.
-      destruct (a_op a); simpl in *; try discriminate; eexists; split; try reflexivity; auto.
-      destruct Hv as [Hv|Hv]; rewrite Hv; [left|right]; reflexivity.
+  destruct (splain (Some (spec_assign a))) eqn:Hp.
+  - (* a lazy operator, or an eager one whose text has no '$' *)
+    assert (Hst : exec_assign fuel st (spec_assign a) x = plain_step (st x) (spec_assign a)).
+    { rewrite (exec_assign_plain fuel st _ Hp). simpl. rewrite Hx, str_eqb_refl. reflexivity. }
+    split; [|split; [intro E; contradiction|split]].
+    + (* constant => the store holds constantValue *)
+      intro Hk. split; [exact Hne|].
+      destruct (var_write_constant v idx a H2 Hk) as [Hs Hcv].
+      rewrite Hst. unfold plain_step, spec_assign. simpl.
+      destruct (a_op a) eqn:Eo; simpl.
+      * rewrite Hcv. reflexivity.
+      * contradiction.
+      * destruct Hcv as [_ Hcv]. rewrite Hcv. reflexivity.
+      * destruct Hs as [Hs|Hs]; rewrite Hs in Hcv.
+        -- destruct (H3 Hs) as [Hc0 Hw0]. destruct (H5 Hw0) as [Hn _].
+           rewrite Hn, Hcv, Hc0. reflexivity.
+        -- assert (Hk0 : is_constant v = true) by (unfold is_constant; rewrite Hs; reflexivity).
+           destruct (H4 Hk0) as [_ Hv]. rewrite Hv, Hcv, <- app_assoc. reflexivity.
+      * destruct Hs as [Hs|Hs]; rewrite Hs in Hcv.
+        -- destruct (H3 Hs) as [Hc0 Hw0]. destruct (H5 Hw0) as [Hn _].
+           rewrite Hn, Hcv. reflexivity.
+        -- assert (Hk0 : is_constant v = true) by (unfold is_constant; rewrite Hs; reflexivity).
+           destruct (H4 Hk0) as [_ Hv]. rewrite Hv, Hcv. reflexivity.
+    + (* defined afterwards *)
+      intros _. rewrite Hst. unfold plain_step. simpl.
+      destruct (a_op a); simpl; try discriminate; destruct (st x) as [[o|]|]; discriminate.
+    + (* the remembered text *)
+      intros Hns _. unfold known in Hns. rewrite after_shell_snoc, after_eval_ref_snoc in Hns. simpl snd in Hns.
+      rewrite Hst, (var_write_value v idx a H2), H1. unfold plain_step, spec_assign. simpl.
+      destruct (a_op a) eqn:Eo; simpl in *; try discriminate.
+      * eexists; split; [reflexivity|left; reflexivity].
+      * eexists; split; [reflexivity|left; reflexivity].
+      * (* += *)
+        destruct ws as [|w0 ws0].
+        -- destruct (H5 eq_refl) as [Hn Hv0]. rewrite Hn, Hv0. eexists; split; [reflexivity|right; reflexivity].
+        -- assert (Hw : w0 :: ws0 <> []) by discriminate.
+           destruct (H7 Hns Hw) as (t & Ht & Hv). rewrite Ht. eexists; split; [reflexivity|].
+           destruct Hv as [Hv|Hv]; rewrite Hv; [left|right]; reflexivity.
+      * (* ?= *)
+        destruct ws as [|w0 ws0].
+        -- destruct (H5 eq_refl) as [Hn Hv0]. rewrite Hn. eexists; split; [reflexivity|left; reflexivity].
+        -- assert (Hw : w0 :: ws0 <> []) by discriminate.
+           destruct (H7 Hns Hw) as (t & Ht & Hv). rewrite Ht. eexists; split; [reflexivity|exact Hv].
+  - (* ':=' or '!=' with a '$' in the text: not constant, the remembered text is not trusted *)
+    assert (Hop : a_op a = OpEval \/ a_op a = OpShell).
+    { simpl in Hp. destruct (a_op a); simpl in Hp; try discriminate; auto. }
+    assert (Hnd : no_dollar (render (a_val a)) = false).
+    { simpl in Hp. destruct Hop as [E|E]; rewrite E in Hp; simpl in Hp; exact Hp. }
+    split; [|split; [intro E; contradiction|split]].
+    + intro Hk. exfalso.
+      destruct (var_write_constant v idx a H2 Hk) as [_ Hcv].
+      destruct Hop as [E|E]; rewrite E in Hcv; [|contradiction].
+      destruct Hcv as [Hm _]. rewrite (no_vars_plain _ Hok Hm) in Hnd. discriminate.
+    + intros _. unfold exec_assign, spec_assign. simpl. rewrite Hx.
+      destruct Hop as [E|E]; rewrite E; simpl;
+        match goal with |- context [match ?e with Some _ => _ | None => _ end] => destruct e end;
+        rewrite supd_same; discriminate.
+    + intros Hns _. exfalso. unfold known in Hns.
+      rewrite after_shell_snoc, after_eval_ref_snoc in Hns. simpl snd in Hns.
+      destruct Hop as [E|E]; rewrite E in Hns; [rewrite Hnd in Hns|]; simpl in Hns;
+        try rewrite andb_false_r in Hns; discriminate.
 Qed.
 
 Lemma inv_x_step fuel pre s l s' vs x :
-  (assigns x l = true -> eager_plain_line l = true) ->
+  line_ok l = true ->
   inv_x fuel pre s x -> check_line s (length pre) l = Ok (s', vs) -> inv_x fuel (pre ++ [l]) s' x.
 Proof.
-  intros Hp Hinv Hck. unfold inv_x in *.
-  rewrite (check_line_var _ _ _ _ _ x Hck).
-  rewrite store_after_snoc, writes_of_app, no_shell_on_app. simpl writes_of. simpl Nat.add.
-  rewrite app_nil_r. unfold no_shell_on at 2. simpl forallb. rewrite andb_true_r.
-  unfold entry, spec_line. unfold assigns in Hp. destruct (l_body l) as [a|] eqn:Eb; simpl option_map.
-  - destruct (str_eqb (a_var a) x) eqn:Ex.
+  intros Hok Hinv Hck. unfold inv_x in *.
+  pose proof (check_line_var _ _ _ _ _ x Hck) as Hv.
+  rewrite store_after_snoc, writes_of_app. simpl writes_of. simpl Nat.add.
+  rewrite app_nil_r.
+  unfold entry, spec_line. unfold line_ok in Hok. destruct (l_body l) as [a|] eqn:Eb; simpl option_map.
+  - destruct Hv as [us Hv]. rewrite Hv.
+    destruct (str_eqb (a_var a) x) eqn:Ex.
     + apply str_eqb_spec in Ex. apply inv_var_reads. simpl exec_line.
-      rewrite andb_true_l.
       apply inv_var_write; auto.
-      specialize (Hp eq_refl).
-      rewrite <- splain_spec_line in Hp. unfold spec_line in Hp. rewrite Eb in Hp. exact Hp.
-    + apply inv_var_reads. simpl. rewrite app_nil_r, andb_true_r.
+      unfold assign_ok in Hok. apply andb_true_iff in Hok as [Hok _].
+      apply andb_true_iff in Hok as [_ Hok]. exact Hok.
+    + apply inv_var_reads. simpl. rewrite app_nil_r.
       destruct Hinv as (H1 & H2 & H3 & H4 & H5 & H6 & H7).
       assert (Hst : exec_assign fuel (store_after fuel pre) (spec_assign a) x = store_after fuel pre x).
       { apply exec_assign_other. simpl. intro E. subst x. rewrite str_eqb_refl in Ex. discriminate. }
       unfold inv_var. rewrite Hst. repeat split; auto; try (apply H3; assumption);
         try (apply H4; assumption); try (apply H5; assumption).
-  - simpl. rewrite app_nil_r, andb_true_r. exact Hinv.
+  - rewrite Hv. simpl. rewrite app_nil_r. exact Hinv.
 Qed.
 
 Lemma inv_struct_step pre s l s' vs :
   inv_struct pre s -> check_line s (length pre) l = Ok (s', vs) -> inv_struct (pre ++ [l]) s'.
 Proof.
   intros Hinv Hck x. destruct (Hinv x) as [H1 H2].
-  rewrite (check_line_var _ _ _ _ _ x Hck).
+  pose proof (check_line_var _ _ _ _ _ x Hck) as Hv.
   rewrite writes_of_app. simpl writes_of. simpl Nat.add. rewrite app_nil_r.
   unfold entry. destruct (l_body l) as [a|].
-  - destruct (apply_reads_fields x (uses (a_val a))
+  - destruct Hv as [us Hv]. rewrite Hv.
+    destruct (apply_reads_fields x (uses (a_val a) ++ us)
                (if str_eqb (a_var a) x then var_write (mv s x) (length pre) a false else mv s x))
       as (R1 & _ & _ & R4 & _).
     rewrite R1, R4. destruct (str_eqb (a_var a) x).
     + rewrite var_write_writes, var_write_cond, H1, H2. split; reflexivity.
     + rewrite app_nil_r. split; assumption.
-  - rewrite app_nil_r. split; assumption.
+  - rewrite Hv, app_nil_r. split; assumption.
 Qed.
 
-Lemma plain_on_app x a b : plain_on x (a ++ b) = plain_on x a && plain_on x b.
-Proof. unfold plain_on. apply forallb_app. Qed.
 
 (* ---------- 3. the verdicts of one line ---------- *)
 
@@ -389,13 +461,16 @@ Lemma handle_varassign_verdicts s idx a s' vs vd :
   handle_varassign s idx a false = Ok (s', vs) -> In vd vs ->
   exists prev rest,
     rev (v_writes (vi_var (s_vars s (a_var a)))) = prev :: rest /\
-    ( (vd = on_overwrite prev (idx, a) /\ (a_op a = OpAssign \/ a_op a = OpEval))
+    ( (vd = on_overwrite prev (idx, a) /\
+        (a_op a = OpAssign \/ (a_op a = OpEval /\ has_make_vars (a_val a) = false)))
    \/ (vd = on_redundant (idx, a) prev /\
         (a_op a = OpDefault \/
-         ((a_op a = OpAssign \/ a_op a = OpEval) /\
+         ((a_op a = OpAssign \/ (a_op a = OpEval /\ has_make_vars (a_val a) = false)) /\
+          after_shell (v_writes (vi_var (s_vars s (a_var a)))) = false /\
           str_eqb (v_value (vi_var (s_vars s (a_var a)))) (render (a_val a)) = true)))
    \/ (vd = on_redundant prev (idx, a) /\
-        (a_op a = OpDefault \/ a_op a = OpAssign \/ a_op a = OpEval) /\
+        ((a_op a = OpDefault /\ length (v_writes (vi_var (s_vars s (a_var a)))) = 1%nat) \/
+         a_op a = OpAssign \/ (a_op a = OpEval /\ has_make_vars (a_val a) = false)) /\
         is_constant (vi_var (s_vars s (a_var a))) = true /\
         str_eqb (v_cval (vi_var (s_vars s (a_var a)))) (render (a_val a)) = true)
    \/ (vd = on_redundant prev (idx, a) /\ a_op a = OpShell /\
@@ -411,12 +486,19 @@ Proof.
   destruct (vi_last (s_vars s (a_var a)));
     try (inversion H; subst; destruct Hin; fail);
   destruct (a_op a) eqn:Eo; simpl in H;
-  destruct (has_make_vars (a_val a)); simpl in H;
-  destruct (str_eqb (v_value (vi_var (s_vars s (a_var a)))) (render (a_val a))) eqn:Ev; simpl in H;
-  destruct (included_by_or_equals_all (s_path s) (vi_paths (s_vars s (a_var a)))); simpl in H;
-  destruct (includes_or_equals_all (s_path s) (vi_paths (s_vars s (a_var a)))); simpl in H;
-  destruct (is_constant (vi_var (s_vars s (a_var a)))) eqn:Ek; simpl in H;
-  try destruct (str_eqb (v_cval (vi_var (s_vars s (a_var a)))) (render (a_val a))) eqn:Ec; simpl in H;
+  (* only the tests that the chosen branch really performs *)
+  repeat (let E := fresh "E" in
+          match type of H with
+          | context [has_make_vars (a_val a)] => destruct (has_make_vars (a_val a)) eqn:E; simpl in H
+          | context [after_shell ?w] => destruct (after_shell w) eqn:E; simpl in H
+          | context [str_eqb (v_value ?v) ?t] => destruct (str_eqb (v_value v) t) eqn:E; simpl in H
+          | context [included_by_or_equals_all ?p ?q] => destruct (included_by_or_equals_all p q) eqn:E; simpl in H
+          | context [includes_or_equals_all ?p ?q] => destruct (includes_or_equals_all p q) eqn:E; simpl in H
+          | context [is_constant ?v] => destruct (is_constant v) eqn:E; simpl in H
+          | context [existsb ?f ?l] => destruct (existsb f l) eqn:E; simpl in H
+          | context [str_eqb (v_cval ?v) ?t] => destruct (str_eqb (v_cval v) t) eqn:E; simpl in H
+          | context [Nat.eqb ?n 1] => destruct (Nat.eqb n 1) eqn:E; [apply Nat.eqb_eq in E|]; simpl in H
+          end);
   inversion H; subst; simpl in Hin; try contradiction;
   destruct Hin as [<-|[]]; intuition congruence.
 Qed.
